@@ -595,3 +595,203 @@ Proof.
       destruct (c_lazy c && negb (avail s)); eauto.
     + exists CEnv. unfold step. rewrite Ep, E, Z.eqb_refl. eauto.
 Qed.
+
+(* ---- history level: every notification instant of the run is answered ------------------------------ *)
+
+Lemma steps_snoc : forall c a b ch b', steps c a b -> step c b ch = Some b' -> steps c a b'.
+Proof.
+  intros c a b ch b' H. induction H; intros Hs.
+  - eapply steps_step; [eassumption | constructor].
+  - eapply steps_step; [eassumption | apply IHsteps; assumption].
+Qed.
+
+Lemma steps_prods : forall c a b, steps c a b -> exists new, prods b = new ++ prods a.
+Proof.
+  intros c a b H. induction H as [s|s ch s' s'' Hs _ IH].
+  - exists []; reflexivity.
+  - destruct IH as [new E]. destruct (step_prods _ _ _ _ Hs) as [[_ Hp]|[_ ->]].
+    + exists new. rewrite E, Hp. reflexivity.
+    + exists (new ++ [(tau c s, pdur c s)]). rewrite E, produce_prods, <- app_assoc. reflexivity.
+Qed.
+
+Lemma reach_now_t0 : forall c ns s, reach c ns s -> t0 c <= now s.
+Proof.
+  intros c ns s H. induction H; [simpl; lia|].
+  pose proof (step_now_mono c s ch s' (G_reach _ _ _ H) H0). lia.
+Qed.
+
+(* how a notification instant [x] of the run left the environment's list: before the loop entered its
+   select, by a delivery while the loop waits, or absorbed by a production in flight *)
+Inductive delivered (c : cfg) (ns : list Z) (x : Z) (s : st) : Prop :=
+| del_init : x <= t0 c -> delivered c ns x s
+| del_env : forall sa sb, reach c ns sa -> step c sa CEnv = Some sb -> now sb = x -> steps c sb s ->
+    delivered c ns x s
+| del_prod : forall sa ch sb, reach c ns sa -> step c sa ch = Some sb -> produces c sa ch = true ->
+    In x (pend sa) -> x <= tau c sa + pdur c sa -> steps c sb s -> delivered c ns x s.
+
+Lemma delivered_step : forall c ns x s ch s', delivered c ns x s -> step c s ch = Some s' ->
+  delivered c ns x s'.
+Proof.
+  intros c ns x s ch s' Hd Hs. destruct Hd as [H|sa sb Hr Ha Hn Hss|sa ch' sb Hr Ha Hp Hin Hx Hss].
+  - apply del_init; assumption.
+  - eapply del_env; eauto using steps_snoc.
+  - eapply del_prod; eauto using steps_snoc.
+Qed.
+
+Lemma delivered_or_pending : forall c ns s x, reach c ns s -> In x ns ->
+  In x (pend s) \/ delivered c ns x s.
+Proof.
+  intros c ns s x Hr Hin. induction Hr as [|s ch s' Hr IH Hs].
+  - destruct (Z.leb_spec x (t0 c)) as [Hle|Hgt].
+    + right; apply del_init; assumption.
+    + left. simpl. apply filter_In. split; [apply isort_In; assumption|].
+      destruct (Z.leb_spec x (t0 c)); [lia | reflexivity].
+  - destruct IH as [Hp|Hd]; [|right; eapply delivered_step; eassumption].
+    destruct (step_prods c s ch s' Hs) as [[Hnp _]|[Hpr E]].
+    + (* no production *)
+      unfold step in Hs. destruct ch; simpl in Hnp; try discriminate.
+      * destruct (pend s) as [|h r] eqn:E; [destruct Hp|].
+        destruct (Z.eqb_spec h (tau c s)) as [Eh|]; [|discriminate].
+        assert (Hs' : step c s CEnv = Some s') by (unfold step; rewrite E, Eh, Z.eqb_refl; exact Hs).
+        inversion Hs; subst s'; clear Hs.
+        destruct Hp as [->|Hp]; [|left; exact Hp].
+        right. eapply del_env; [exact Hr | exact Hs' | simpl; symmetry; exact Eh | constructor].
+      * destruct (chan s); [|discriminate]. inversion Hs; subst s'; left; exact Hp.
+      * destruct (bk s =? tau c s); [|discriminate].
+        destruct (c_lazy c && negb (avail s)); [|discriminate]. inversion Hs; subst s'; left; exact Hp.
+    + (* a production: absorbed if it arrives before its end *)
+      destruct (Z.leb_spec x (tau c s + pdur c s)) as [Hle|Hgt].
+      * right. eapply del_prod; [exact Hr | exact Hs | exact Hpr | exact Hp | exact Hle | constructor].
+      * left. rewrite E, produce_pend. apply filter_In. split; [assumption|].
+        destruct (Z.leb_spec x (tau c s + pdur c s)); [lia | reflexivity].
+Qed.
+
+Lemma every_notification_answered : forall c ns s x, c_lazy c = true -> reach c ns s -> In x ns ->
+  answered c x s.
+Proof.
+  intros c ns s x Hl Hr Hin. pose proof (G_reach _ _ _ Hr) as Hg.
+  unfold answered. change (resp c) with (W c). cbv zeta.
+  assert (HW : 0 < W c) by (unfold W; pose proof ms_pos; lia).
+  destruct (delivered_or_pending c ns s x Hr Hin) as [Hp|Hd].
+  - (* not yet delivered: now s <= x *)
+    left. intros Hlate. pose proof (G_pend c s Hg) as Hf. rewrite Forall_forall in Hf.
+    specialize (Hf x Hp). lia.
+  - destruct Hd as [Hx|sa sb Hra Ha Hn Hss|sa ch sb Hra Ha Hp Hpin Hx Hss].
+    + (* in the channel when the loop enters its select: the production at t0 *)
+      left. intros Hlate. replace (Z.max x (t0 c)) with (t0 c) in * by lia.
+      destruct (first_at_t0 c ns s Hl Hr) as [(_ & En & _)|(l & d & E)]; [lia|].
+      exists (t0 c, d). rewrite E. split; [apply in_or_app; right; left; reflexivity|]. simpl. lia.
+    + (* delivered while the loop waits *)
+      left. intros Hlate.
+      assert (Hrb : reach c ns sb) by (eapply reach_step; eassumption).
+      pose proof (reach_now_t0 _ _ _ Hrb) as H0. rewrite Hn in H0.
+      replace (Z.max x (t0 c)) with x in * by lia.
+      destruct (on_demand c ns sa sb s Hl Hra Ha Hss) as (new & p & E & Hpn & Hp1 & Hp2); [lia|].
+      exists p. rewrite E. split; [apply in_or_app; left; assumption|]. lia.
+    + (* absorbed by the production (tau c sa, pdur c sa) *)
+      pose proof (G_reach _ _ _ Hra) as Hga.
+      pose proof (tau_bounds c sa Hga) as (Ht1 & _ & _ & _ & Ht5).
+      assert (Htx : tau c sa <= x).
+      { destruct (pend sa) as [|h r] eqn:E; [destruct Hpin|]. specialize (Ht5 h r eq_refl).
+        pose proof (G_sorted c sa Hga) as Hso. rewrite E in Hso. destruct Hso as [Hh _].
+        destruct Hpin as [->|Hpin]; [lia|]. rewrite Forall_forall in Hh. specialize (Hh x Hpin). lia. }
+      pose proof (reach_now_t0 _ _ _ Hra) as H0.
+      replace (Z.max x (t0 c)) with x by lia.
+      destruct (step_prods c sa ch sb Ha) as [[Hnp _]|[_ E1]]; [congruence|].
+      assert (Hpb : prods sb = (tau c sa, pdur c sa) :: prods sa) by (rewrite E1; apply produce_prods).
+      destruct (steps_prods c sb s Hss) as [new0 E0].
+      destruct (Z.eq_dec x (tau c sa)) as [Ex|Nx].
+      * (* at the very instant the production starts: that production *)
+        left. intros _. exists (tau c sa, pdur c sa). rewrite E0, Hpb.
+        split; [apply in_or_app; right; left; reflexivity|]. simpl. lia.
+      * right. exists (tau c sa), (pdur c sa). rewrite E0, Hpb.
+        split; [apply in_or_app; right; left; reflexivity|]. split; [lia|]. split; [assumption|].
+        intros Hlate.
+        destruct (no_lost_wakeup c ns sa ch sb s Hl Hra Ha Hp) as (new & p & E & Hpn & Hp1 & Hp2); auto.
+        { right. exists x. split; assumption. }
+        exists p. rewrite <- Hpb, <- E0, E. split; [apply in_or_app; left; assumption|]. split; assumption.
+Qed.
+
+(* ---- the reaper: each accepted batch of new transactions emits a notification ----------------------- *)
+
+Lemma nonempty_spec : forall A (l : list A), nonempty l = true <-> l <> [].
+Proof. intros A l; destruct l; simpl; split; intros H; try discriminate; try reflexivity; congruence. Qed.
+
+Lemma rstep_facts : forall seen i seen' o, rstep seen i = (seen', o) ->
+  (ro_acc o = true -> exists b, ro_call o = Some b /\ b <> [] /\ ro_notify o = true) /\
+  (ro_notify o = true -> exists b, ro_call o = Some b /\ b <> [] /\ ro_acc o = true).
+Proof.
+  intros seen i seen' o H. unfold rstep in H.
+  destruct (ri_get i) as [txs|]; [|inversion H; subst; simpl; split; discriminate].
+  destruct (nonempty (fresh seen txs)) eqn:En; [|inversion H; subst; simpl; split; discriminate].
+  apply nonempty_spec in En as Hne.
+  destruct (ri_ok i); inversion H; subst; simpl; [|split; discriminate].
+  split; intros _; exists (fresh seen txs); auto.
+Qed.
+
+Lemma rrun_sub_notifies : forall evs seen x b,
+  In (x, b) (flat_map (fun to => match ro_call (snd to) with
+                                  | Some b => if ro_acc (snd to) then [(fst to, b)] else []
+                                  | None => [] end) (rrun seen evs)) ->
+  b <> [] /\ In x (flat_map (fun to => if ro_notify (snd to) then [fst to] else []) (rrun seen evs)).
+Proof.
+  induction evs as [|[t i] r IH]; intros seen x b Hin; [destruct Hin|].
+  simpl in Hin |- *. destruct (rstep seen i) as [seen' o] eqn:E.
+  pose proof (rstep_facts _ _ _ _ E) as [Hacc _].
+  simpl in Hin |- *. apply in_app_or in Hin. destruct Hin as [Hin|Hin].
+  - destruct (ro_call o) as [b'|] eqn:Ec; [|destruct Hin].
+    destruct (ro_acc o) eqn:Ea; [|destruct Hin].
+    destruct Hin as [Hin|[]]. inversion Hin; subst t b'; clear Hin.
+    destruct (Hacc eq_refl) as (b'' & Eb & Hne & Hn). inversion Eb; subst b''; clear Eb.
+    split; [assumption|]. rewrite Hn. left; reflexivity.
+  - destruct (IH seen' x b Hin) as [Hne Hn]. split; [assumption|]. apply in_or_app; right; exact Hn.
+Qed.
+
+Lemma rrun_notify_has_sub : forall evs seen x,
+  In x (flat_map (fun to => if ro_notify (snd to) then [fst to] else []) (rrun seen evs)) ->
+  exists b, b <> [] /\
+    In (x, b) (flat_map (fun to => match ro_call (snd to) with
+                                   | Some b => if ro_acc (snd to) then [(fst to, b)] else []
+                                   | None => [] end) (rrun seen evs)).
+Proof.
+  induction evs as [|[t i] r IH]; intros seen x Hin; [destruct Hin|].
+  simpl in Hin |- *. destruct (rstep seen i) as [seen' o] eqn:E.
+  pose proof (rstep_facts _ _ _ _ E) as [_ Hnot].
+  simpl in Hin |- *. apply in_app_or in Hin. destruct Hin as [Hin|Hin].
+  - destruct (ro_notify o) eqn:En; [|destruct Hin]. destruct Hin as [<-|[]].
+    destruct (Hnot eq_refl) as (b & Eb & Hne & Ha). exists b. split; [assumption|].
+    apply in_or_app; left. rewrite Eb, Ha. left; reflexivity.
+  - destruct (IH seen' x Hin) as (b & Hne & Hb). exists b. split; [assumption|].
+    apply in_or_app; right; exact Hb.
+Qed.
+
+(* every batch the sequencer accepted is non-empty and its instant is a notification instant *)
+Lemma reaper_sub_notifies : forall evs x b, In (x, b) (rsubs evs) -> b <> [] /\ In x (rnotifs evs).
+Proof. intros evs x b H. apply (rrun_sub_notifies evs [] x b H). Qed.
+
+(* and the reaper notifies only then *)
+Lemma reaper_notify_has_sub : forall evs x, In x (rnotifs evs) -> exists b, b <> [] /\ In (x, b) (rsubs evs).
+Proof. intros evs x H. apply (rrun_notify_has_sub evs [] x H). Qed.
+
+(* the transactions handed over were not handed over (and accepted) before: [fresh] *)
+Lemma fresh_not_seen : forall txs seen x, In x (fresh seen txs) -> ~ In x seen.
+Proof.
+  induction txs as [|a r IH]; intros seen x Hin; [destruct Hin|]. simpl in Hin.
+  destruct (existsb (N.eqb a) seen) eqn:E.
+  - apply IH; assumption.
+  - destruct Hin as [<-|Hin].
+    + intros Hs. assert (existsb (N.eqb a) seen = true); [|congruence].
+      apply existsb_exists. exists a. split; [assumption | apply N.eqb_refl].
+    + intros Hs. apply (IH (a :: seen) x Hin). right; assumption.
+Qed.
+
+(* lost wake-up, over histories of reaper submissions: every batch of new transactions the sequencer
+   accepted from the reaper, at any instant relative to the timers and to productions in flight, and
+   whatever other notifications [extra] there are, is answered *)
+Lemma reaper_tx_answered : forall c extra evs s x b, c_lazy c = true ->
+  reach c (extra ++ rnotifs evs) s -> In (x, b) (rsubs evs) -> b <> [] /\ answered c x s.
+Proof.
+  intros c extra evs s x b Hl Hr Hin. destruct (reaper_sub_notifies evs x b Hin) as [Hne Hn].
+  split; [assumption|]. eapply every_notification_answered; [assumption | exact Hr |].
+  apply in_or_app; right; assumption.
+Qed.
